@@ -4435,7 +4435,9 @@ void SymbolDatabase::printXml(std::ostream &out) const
 {
     std::string outs;
 
-    std::set<const Variable *> variables;
+    // the variables are written in the order they are seen first so the output does not depend on the addresses
+    std::set<const Variable *> variablesSeen;
+    std::vector<const Variable *> variables;
 
     // Scopes..
     outs += "  <scopes>\n";
@@ -4543,7 +4545,8 @@ void SymbolDatabase::printXml(std::ostream &out) const
                             outs += "\" variable=\"";
                             outs += id_string(arg);
                             outs += "\"/>\n";
-                            variables.insert(arg);
+                            if (variablesSeen.insert(arg).second)
+                                variables.push_back(arg);
                         }
                         outs += "        </function>\n";
                     }
@@ -4599,8 +4602,10 @@ void SymbolDatabase::printXml(std::ostream &out) const
     }
 
     // Variables..
-    for (const Variable *var : mVariableList)
-        variables.insert(var);
+    for (const Variable *var : mVariableList) {
+        if (variablesSeen.insert(var).second)
+            variables.push_back(var);
+    }
     outs += "  <variables>\n";
     for (const Variable *var : variables) {
         if (!var)
